@@ -404,7 +404,7 @@ func runC03(c *Case) {
 		// depth-first enumeration of all grant sequences
 		var prefix []int
 		schedules := 0
-		const cap = 30000
+		const cap = 60000
 		for {
 			var enabledAt [][]int
 			choose := func(step int, enabled []int) int {
@@ -420,6 +420,9 @@ func runC03(c *Case) {
 			}
 			res := c03Run(c, w, cfg, choose)
 			schedules++
+			if schedules%50 == 0 {
+				c.Heartbeat()
+			}
 			if !c03Judge(c, cfg, w, res, "C03:exhaustive:") {
 				break
 			}
